@@ -184,12 +184,13 @@ def check_case(ctx, case, report=None, table_hook=None, do_genall=True, brute=Tr
         c2 = dict(c, dup=c["dup"] + 2, hgt=(math.inf if (c["hgt"] != math.inf and c["dup"] % 2 == 0) else (3 if c["hgt"] == math.inf else c["hgt"] + 1)))
         B.set_costs_inplace(c2)
         min2 = min(dtl.dp_table(G, S, B.leafmap, c2)[G.root].values())
-        for pol in (ALL, ANY):
-            obs = SC.call("thl", B.inp, pol)
-            ctx.count("evaluations")
-            ctx.count("mon.after_inplace_cost_change")
-            for mon, msg, d in judge_outputs(B, obs, min2, 1):
-                report(mon, f"thl/{pol.name} after the cost table of the same input object was changed in place to {bridge_costs_text(c2)}: {msg}", algo="thl", policy=pol.name, **d)
+        for algo2 in algos:
+            for pol in (ALL, ANY):
+                obs = SC.call(algo2, B.inp, pol)
+                ctx.count("evaluations")
+                ctx.count("mon.after_inplace_cost_change")
+                for mon, msg, d in judge_outputs(B, obs, min2, 1):
+                    report(mon, f"{algo2}/{pol.name} after the cost table of the same input object was changed in place to {bridge_costs_text(c2)}: {msg}", algo=algo2, policy=pol.name, **d)
     return B
 
 
